@@ -98,6 +98,14 @@ func (g *gen) via() string {
 	return ""
 }
 
+// readVia: reads also go through Row().
+func (g *gen) readVia() string {
+	if g.r.Chance(30) {
+		return "row"
+	}
+	return g.via()
+}
+
 // derive returns the handle a step runs on.
 func derive(tx *gorm.DB, via string) *gorm.DB {
 	switch via {
@@ -161,11 +169,11 @@ func (g *gen) block(depth int) *Block {
 		case x < 5 && g.writes < 30:
 			b.Steps = append(b.Steps, g.write())
 		case x < 7:
-			b.Steps = append(b.Steps, Step{Kind: "read", Via: g.via()})
+			b.Steps = append(b.Steps, Step{Kind: "read", Via: g.readVia()})
 		case depth < 4 && g.blocks < 12:
 			b.Steps = append(b.Steps, Step{Kind: "child", Child: g.block(depth + 1), Swallow: g.r.Chance(60), Recover: g.r.Chance(50)})
 		default:
-			b.Steps = append(b.Steps, Step{Kind: "read", Via: g.via()})
+			b.Steps = append(b.Steps, Step{Kind: "read", Via: g.readVia()})
 		}
 	}
 	return b
@@ -187,7 +195,7 @@ func (Prop) Gen(r *core.Rand, tier string) interface{} {
 			case x < 5:
 				c.Manual = append(c.Manual, g.write())
 			case x < 6:
-				c.Manual = append(c.Manual, Step{Kind: "read", Via: g.via()})
+				c.Manual = append(c.Manual, Step{Kind: "read", Via: g.readVia()})
 			case x < 8:
 				c.Manual = append(c.Manual, Step{Kind: "savepoint", Name: r.Pick(names)})
 			default:
@@ -530,6 +538,12 @@ func (r *run) write(tx *gorm.DB, st Step, where string) error {
 func (r *run) read(tx *gorm.DB, where string) error { return r.readVia(tx, "", where) }
 
 func (r *run) readVia(tx *gorm.DB, via, where string) error {
+	if via == "row" {
+		return r.readRow(tx, where)
+	}
+	if via == "reuse" {
+		via = ""
+	}
 	tx = derive(tx, via)
 	snap := r.snapshot()
 	var kvs []fam.KV
@@ -552,6 +566,36 @@ func (r *run) readVia(tx *gorm.DB, via, where string) error {
 		wants = append(wants, render(w.top()))
 	}
 	r.filter(func(w world) bool { return render(w.top()) == g }, "read_mismatch", where+"|read", fmt.Sprintf("%s: read-back inside the block returned {%s}, the model expects one of %q (faults fired during the read: %d; %s)", where, g, wants, len(fired), r.cfgKey()))
+	return nil
+}
+
+// readRow reads the number of rows through Row() (the QueryRowContext path, and
+// with PrepareStmt its unprepared fallback when the preparation fails): the
+// transaction must see exactly its own state.
+func (r *run) readRow(tx *gorm.DB, where string) error {
+	snap := r.snapshot()
+	var n int
+	var err error
+	if row := tx.Raw("SELECT count(*) FROM kvs WHERE k <> ?", "").Row(); row != nil {
+		err = row.Scan(&n)
+	} else {
+		// gorm's Row() returns nil when the handle already carries an error (after a
+		// delivered SAVEPOINT / ROLLBACK TO fault): a refused statement
+		err = fmt.Errorf("Row() returned nil")
+	}
+	fired := r.firedSince(snap)
+	if err != nil {
+		if len(fired) > 0 || r.relaxed {
+			return err
+		}
+		r.fail("tx_unusable", where+"|read_row", fmt.Sprintf("%s: Row().Scan failed with %q although no fault was injected into it", where, err))
+		return err
+	}
+	var wants []string
+	for _, w := range r.worlds {
+		wants = append(wants, fmt.Sprint(len(w.top())))
+	}
+	r.filter(func(w world) bool { return len(w.top()) == n }, "read_mismatch", where+"|read_row", fmt.Sprintf("%s: Row() inside the block counted %d rows, the model expects one of %v (faults fired during the read: %d; %s)", where, n, wants, len(fired), r.cfgKey()))
 	return nil
 }
 
